@@ -265,11 +265,7 @@ open Fit.Crc Fit.Gen.Integ
 
 /-! ### intact single-sequence files with a 14-byte header -/
 
-/-- "ENCODER OUTPUT" as a predicate on bytes, stated with the independent framing reader: the stream is one
-well-formed sequence with a 14-byte header that carries its computed CRC, and a correct file CRC. -/
-def IsEncoderOutput14 (f : List Nat) : Prop :=
-  Bytes f ∧ ∃ s, FitFormat.parseStream f = some [s] ∧ s.header.size = 14 ∧
-    FitFormat.headerCrcStrict f s = true ∧ FitFormat.fileCrcOk f s = true
+export Fit.IntegritySpec (IsEncoderOutput14)
 
 /-- the same, spelled out byte by byte -/
 def Intact14 (f : List Nat) : Prop :=
